@@ -7,6 +7,8 @@ VERIF = os.path.dirname(os.path.dirname(os.path.abspath(__file__)))
 
 
 def regenerate() -> dict:
-    from . import effects
+    from . import effects, pysrc
     rows = effects.write_lean(os.path.join(VERIF, "lean", "KodaModel", "Generated", "Effects.lean"))
-    return {"effects_rows": len(rows), "not_confined": [r for r in rows if r["target"] != "fresh-local"]}
+    changed = pysrc.regenerate()
+    return {"effects_rows": len(rows), "not_confined": [r for r in rows if r["target"] != "fresh-local"],
+            "predsrc_changed": changed}
